@@ -138,6 +138,10 @@ pub enum Op {
     ReadToString(String),
     WalkDir(String),
     SetTime(String, TimeField, u64, u32),
+    /// engine pseudo-steps (never produced by gen_op, never run through `exec`): open a write handle and keep it
+    /// open across later steps / drop the oldest kept handle (= publish)
+    HoldOpen(String, bool, Vec<u8>),
+    Publish(String),
 }
 
 pub const ALL_KINDS: &[&str] = &[
@@ -173,6 +177,8 @@ impl Op {
                 TimeField::Modified => "set_modification_time",
                 TimeField::Accessed => "set_access_time",
             },
+            Op::HoldOpen(..) => "hold_open_writer",
+            Op::Publish(_) => "publish_held_writer",
         }
     }
     pub fn path(&self) -> &str {
@@ -183,6 +189,7 @@ impl Op {
             Op::CreateFile(p, _) | Op::AppendFile(p, _) | Op::OpenRead(p, _) => p,
             Op::CopyFile(p, _) | Op::MoveFile(p, _) | Op::CopyDir(p, _) | Op::MoveDir(p, _) => p,
             Op::SetTime(p, ..) => p,
+            Op::HoldOpen(p, ..) | Op::Publish(p) => p,
         }
     }
     pub fn dest(&self) -> Option<&str> {
@@ -233,6 +240,8 @@ impl Op {
             Op::AppendFile(p, s) => format!("append_file({:?})[{}]", p, ws(s)),
             Op::OpenRead(p, s) => format!("open_file({:?})[{}]", p, rs(s)),
             Op::SetTime(p, _, s, n) => format!("{}({:?},{}s+{}ns)", self.name(), p, s, n),
+            Op::HoldOpen(p, append, b) => format!("{}({:?})+write({}) [handle kept open]", if *append { "append_file" } else { "create_file" }, p, bytes_repr(b)),
+            Op::Publish(p) => format!("drop(kept write handle of {:?})", p),
             _ => match self.dest() {
                 Some(d) => format!("{}({:?} -> {:?})", self.name(), self.path(), d),
                 None => format!("{}({:?})", self.name(), self.path()),
@@ -505,6 +514,7 @@ fn exec_inner_via(at_fn: &dyn Fn(&str) -> VfsPath, op: &Op) -> Res {
             }
             Ok(Out::Walk(items))
         }
+        Op::HoldOpen(..) | Op::Publish(_) => Err(ErrInfo { kind: Kind::Other, path: "<harness>".into(), display: "pseudo-step executed outside the engine".into(), panic: None }),
         Op::SetTime(p, f, s, n) => {
             let t = systime(*s, *n);
             let path = at(root, p);
